@@ -1,5 +1,6 @@
 """C07 — what annotate writes, the linter reads back."""
 import json
+import os
 
 from core import Property, Stream, enc, dec, enc_list, dec_list
 import annotcorr
@@ -202,6 +203,93 @@ class EndToEndStream(Stream):
         if len(c["files"]) > 3:
             c["files"] = [f["name"] for f in c["files"]]
         return c
+
+
+class TreeStream(EndToEndStream):
+    """`reuse annotate --recursive DIR ...`: the files are found by the tool's own walk instead of being named."""
+    name = "e2etree"
+    rule = ("real `reuse annotate --recursive` on scratch trees, then real `reuse lint --json`: 3-9 files in nested directories (names with "
+            "blanks, non-ASCII, a directory called lib.py) mixing commentable files of random table entries (random content, own-style "
+            "header half of the time), binary files and files of unrecognised types, each with or without an existing FILE.license "
+            "(empty; copyright + licence; copyright only; licence only; contributors only; CRLF), path arguments = the project root, top "
+            "directories, nested directories (also spelled ./d, d/, d/../d), now and then a file named directly next to them, under "
+            "every .license option (none, --force-dot-license, --fallback-dot-license, --skip-unrecognised), 10 prefixes, years, complete "
+            "templates, --no-replace / --merge-copyrights / --skip-existing at a low rate.  Oracle (property text, per file): exit 0 => "
+            "for every file below a named directory that the linter covers, lint reads back requested U previously declared (through "
+            "FILE.license where one exists); files outside the named directories are untouched; usage error => nothing is touched; a "
+            "failing run is repeated per file.  A failing tree is shrunk to the one file.  non-trivial = distinct (file kind, sibling "
+            "kind, option, outcome)")
+
+    def cases(self, tier, rng):
+        entries = G.table_entries()
+        for _ in range(600 if tier == "thorough" else 90):
+            yield G.tree_case(rng, entries, rng.randint(3, 9))
+
+    @staticmethod
+    def _alone(case, f):
+        cover = [p for p in case["paths"] if G.under(f["name"], p)]
+        return dict(case, files=[f], paths=cover[:1] or [f["name"]])
+
+    def impl(self, case):
+        rec = G.run_once(case)
+        per = {}
+        if rec["rc"] not in (0, 2) and not rec["exc"]:
+            for f in case["files"]:
+                if f.get("scope"):
+                    per[f["name"]] = G.run_once(self._alone(case, f))
+        return json.dumps({"rc": rec["rc"], "exc": rec["exc"], "rec": rec, "per": per}, sort_keys=True)
+
+    def _judge(self, case, out):
+        if out["exc"]:
+            return None, "traceback: annotate raised %s" % out["exc"]
+        whole = out["rec"]
+        for f in case["files"]:
+            name = f["name"]
+            if not f.get("scope"):
+                hit = [k for k in whole["changed"] if k in (name, name + ".license")]
+                if hit:
+                    return f, "wrote-out-of-scope: %r is neither named nor below a named directory, yet %r changed" % (name, hit)
+                continue
+            rec = out["per"].get(name, whole)
+            if rec["exc"]:
+                return f, "traceback: annotate raised %s" % rec["exc"]
+            direct = any(os.path.normpath(p) == os.path.normpath(name) for p in case["paths"])
+            if not direct and not rec["before"][name]["linted"] and not [k for k in rec["changed"] if k in (name, name + ".license")]:
+                continue          # a file the linter does not cover is not part of the walk either
+            why = G.judge_file(case, f, rec, rec["rc"])
+            if why is not None:
+                return f, why
+        return None, None
+
+    def oracle(self, case, impl_out):
+        if impl_out.startswith("EXC"):
+            return "harness: " + impl_out
+        f, why = self._judge(case, json.loads(impl_out))
+        if why is None:
+            return None
+        n = len(case["files"])
+        if f is not None and n > 1:
+            small = self._alone(case, dict(f))
+            f2, why2 = self._judge(small, json.loads(self.impl(small)))
+            if why2 is not None and why2.split(":")[0] == why.split(":")[0]:
+                for k in list(case):
+                    del case[k]
+                case.update(small, shrunk_from_files=n)
+                why = why2
+        return "%s [file %s of a tree of %d file(s), paths %r]" % (why, f["name"] if f else "?", len(case["files"]), case["paths"])
+
+    def model_lines(self, case):
+        return []
+
+    def nontrivial(self, case, impl_out):
+        if impl_out.startswith("EXC"):
+            return None
+        out = json.loads(impl_out)
+        sib = lambda f: "none" if f.get("sib") is None else ("empty" if f["sib"] == "" else "info")      # noqa: E731
+        return tuple(sorted({(f["kind"], sib(f), bool(f.get("scope"))) for f in case["files"]})) + (case.get("dot"), out["rc"], bool(out["rec"]["changed"]))
+
+    def show(self, case):
+        return case
 
 
 class FileTieStream(annotcorr.AnnotateStream):
@@ -458,7 +546,7 @@ class NewHeaderStream(Stream):
 PROPERTY = Property(
     pid="C07",
     streams=[annotcorr.CreateCommentStream(), annotcorr.CommentAtStream(), NewHeaderStream(), AchievableTieStream(), AnnotateReadbackStream(), FileTieStream(), StyleOfStream(),
-             EndToEndStream()],
+             EndToEndStream(), TreeStream()],
     assumptions=[
         "Jinja2 is outside the model: the template is an arbitrary function in the theorems; in the correspondence the model receives "
         "the text real Jinja rendered for the information the model computed",
